@@ -1,11 +1,11 @@
 SPECIFICATION Spec
 CONSTANT N = 4
 CONSTANT SITES <- Sites4v
-CONSTANT STENCIL1 <- StV1
+CONSTANT STENCIL1 <- StV1x
 CONSTANT STENCIL2 <- StV2
-CONSTANT VANISH <- Vanish4
+CONSTANT VANISH <- Vanish4x
 CONSTANT ALLORDERS = TRUE
-CONSTANT EMITMOD = 149
+CONSTANT EMITMOD = 2999
 INVARIANT InvAccel
 INVARIANT InvTotal
 INVARIANT InvSame
